@@ -481,6 +481,96 @@ pub fn check_seg_case(c: &SegCase, st: &mut Stats) -> Result<(), Fail> {
     Ok(())
 }
 
+/// TLS results of the sequential capture loops (`analyze_pcap` of the TLS analyzer and of the unified analyzer), in order
+fn pcap_tls(unified: bool, frames: &[Vec<u8>]) -> Result<Vec<String>, String> {
+    let path = crate::drive::scratch_file("c08");
+    let refs: Vec<&[u8]> = frames.iter().map(|f| f.as_slice()).collect();
+    crate::drive::write_pcap(&path, &refs);
+    let p = path.to_string_lossy().to_string();
+    let out = if unified {
+        let (tx, rx) = std::sync::mpsc::channel();
+        let mut a = huginn_net::HuginnNet::new(Some(crate::drive::default_db()), 1000, None).map_err(|e| e.to_string())?;
+        a.analyze_pcap(&p, tx, None).map_err(|e| e.to_string())?;
+        rx.try_iter().filter_map(|r| r.tls_client.as_ref().map(crate::drive::tls_out_str)).collect()
+    } else {
+        let (tx, rx) = std::sync::mpsc::channel();
+        let mut a = huginn_net_tls::HuginnNetTls::new(1000);
+        a.analyze_pcap(&p, tx, None).map_err(|e| e.to_string())?;
+        rx.try_iter().map(|r| crate::drive::tls_out_str(&r)).collect()
+    };
+    let _ = std::fs::remove_file(&path);
+    Ok(out)
+}
+
+/// the sequential analyzers as a user runs them (capture loop -> private per-packet entry point): one result per segmented hello
+pub fn check_capture_loop(c: &SegCase, st: &mut Stats) -> Result<(), Fail> {
+    if !c.hello.fits() || c.hello.record().len() > 9000 {
+        st.discards += 1;
+        return Ok(());
+    }
+    let rec = c.hello.record();
+    let mut stream = rec.clone();
+    stream.extend_from_slice(&c.trailing);
+    // premise: the first segment holds the record header
+    let cuts: Vec<usize> = cut_positions(&c.cuts, stream.len()).into_iter().filter(|x| *x >= 5).collect();
+    let segs = split(&stream, &cuts);
+    let tiny = segs.iter().skip(1).any(|s| s.len() < 5);
+    if cuts.len() >= 1 && (tiny || interesting(&cuts, rec.len(), c.trailing.len())) {
+        st.nontrivial(c);
+    }
+    st.class(if tiny { "a-later-segment-shorter-than-5-bytes" } else { "all-later-segments>=5-bytes" });
+    let ip = mk_ip(c.v4);
+    let wire = (c.cuts.len() + c.trailing.len()) % 3;
+    let dress = |fs: Vec<Vec<u8>>| -> Vec<Vec<u8>> {
+        fs.into_iter()
+            .map(|mut f| {
+                if wire > 0 && f.len() < 60 {
+                    f.resize(60, 0);
+                }
+                if wire == 2 {
+                    f.extend_from_slice(&[0xde, 0xad, 0xbe, 0xef]);
+                }
+                f
+            })
+            .collect()
+    };
+    let single = dress(seg_frames(&ip, 40001, 443, 5000, &[rec.clone()]));
+    let frames = dress(seg_frames(&ip, 40001, 443, 5000, &segs));
+    st.sample(|| json!({"record_len": rec.len(), "cuts": cuts, "wire": wire}));
+    // the unified analyzer fingerprints single-segment hellos only (its TLS step is the stateless one, see C20): not part of C08
+    for unified in [false] {
+        let who = if unified { "unified" } else { "tls" };
+        let reference = pcap_tls(unified, &single).map_err(|e| fail!(format!("capture-loop:{who}:error"), "{e}"))?;
+        if reference.len() != 1 {
+            return Err(fail!(format!("capture-loop:{who}:single-segment-not-reported-once"), "{} results", reference.len()));
+        }
+        let got = pcap_tls(unified, &frames).map_err(|e| fail!(format!("capture-loop:{who}:error"), "{e}"))?;
+        if got != reference {
+            return Err(fail!(format!("capture-loop:{who}:results-differ-from-single-segment"), "record {} bytes, cuts {:?}, wire {wire}: {} results, expected exactly the single-segment one\nexpected {:?}\ngot      {:?}", rec.len(), cuts, got.len(), reference, got));
+        }
+    }
+    Ok(())
+}
+
+pub fn run_capture_loop(ctx: &Ctx) {
+    let n = ctx.tier.pick(3000, 60_000);
+    ctx.run_prop(
+        "capture-loop-segmented",
+        "proptest hello x generated cut positions (first segment >= 5 bytes; clustered so that later segments of 1..4 bytes are frequent) x trailing bytes, as Ethernet frames (plain / padded to 60 bytes / padded + FCS) written to a pcap file and analysed by HuginnNetTls::analyze_pcap (the sequential capture loop and its private per-packet entry point); oracle: exactly the one result of the single-frame capture; non-trivial: a later segment shorter than 5 bytes, or a cut in the first 9 bytes / a length field / tail <= 2 bytes, or trailing bytes",
+        n,
+        || {
+            (
+                gt::hello(),
+                proptest::collection::vec(prop_oneof![2 => any::<u16>(), 2 => 0u16..600, 3 => 65300u16..=65535], 0..8),
+                prop_oneof![3 => Just(vec![]), 1 => Just(vec![0x14, 3, 3, 0, 1, 1, 0x17, 3, 3, 0, 2, 9, 9])],
+                any::<bool>(),
+            )
+                .prop_map(|(hello, cuts, trailing, v4)| SegCase { hello, cuts, trailing, v4 })
+        },
+        |c: &SegCase, st: &mut Stats| check_capture_loop(c, st),
+    );
+}
+
 pub fn replay(_ctx: &Ctx, sub: &str, input: &serde_json::Value) -> Result<(), Fail> {
     let v = &input["value"];
     let mut st = Stats::new();
@@ -488,6 +578,10 @@ pub fn replay(_ctx: &Ctx, sub: &str, input: &serde_json::Value) -> Result<(), Fa
         "random-partitions" => {
             let c: SegCase = serde_json::from_value(v.clone()).map_err(|e| fail!("bad-replay", "{e}"))?;
             check_seg_case(&c, &mut st)
+        }
+        "capture-loop-segmented" => {
+            let c: SegCase = serde_json::from_value(v.clone()).map_err(|e| fail!("bad-replay", "{e}"))?;
+            check_capture_loop(&c, &mut st)
         }
         "all-single-cuts" => {
             let (h, v4): (Hello, bool) = serde_json::from_value(v.clone()).map_err(|e| fail!("bad-replay", "{e}"))?;
